@@ -12,12 +12,16 @@ def run(rep, tier, seed, rng):
     cases = gen_common.load_cases(rng, tier, 300, 5000, focus="build")
     laze, driver, results = gen_common.run_cases(cases)
     known = [k for k in core.load_known() if k["property"] == "C06" and k["status"] == "open"]
-    nuser = 0; distinct = set(); ndis = 0; nfiles = 0
+    nuser = 0; distinct = set(); ndis = 0; nfiles = 0; ndlclash = 0
     for c, r in zip(cases, results):
         if r["impl_parsed"] is not None:
             nfiles += 1
             req = [b["out"] for b in r["impl"]["builds"]]
+            _, clash = mc.download_dirs(c[0])
             for clause, detail, user in mc.wf_manifest(r["impl_parsed"], req):
+                if clause == "output-produced-twice" and any(mc.norm(detail).startswith(d + "/") for d in clash):
+                    ndlclash += 1       # two module definitions share a download directory: known finding K06:download-dir-clash
+                    continue
                 if user:
                     nuser += 1          # user-chosen outputs colliding: known finding class K06:user-chosen-output
                     continue
@@ -32,7 +36,9 @@ def run(rep, tier, seed, rng):
             rep.violation("model and implementation disagree: " + "; ".join(r["dis"])[:400], gen_common.replay_data(r), found_input=False)
         if r["model"]["kind"] == "ok" and r["model"].get("wf") is False and r["impl_parsed"] is not None:
             # the model's own file fails wf_manifestb: only acceptable for the user-chosen class
-            if not any(u for _, _, u in mc.wf_manifest(r["model_parsed"], [b["out"] for b in r["model"]["builds"]])):
+            _, clash = mc.download_dirs(c[0])
+            if not any(u or any(mc.norm(dt).startswith(d + "/") for d in clash)
+                       for _, dt, u in mc.wf_manifest(r["model_parsed"], [b["out"] for b in r["model"]["builds"]])):
                 rep.violation("model file fails wf_manifestb outside the known class", gen_common.replay_data(r), found_input=False)
     if nuser and not known:
         rep.violation("user-chosen outputs collide but no known finding is recorded", {}, found_input=False)
@@ -40,6 +46,6 @@ def run(rep, tier, seed, rng):
                    rule="corpus + random projects (half with the build-focused generator: custom builds, build deps, several builders); every written file is "
                         "parsed and checked with the wf_manifest predicate (Coq twin wf_manifestb evaluated on the model's file); non-trivial = >=2 configured builds",
                    samples=[dict(cli=results[-1]["cli"], n_statements=len(results[-1]["impl_parsed"]["builds"]) if results[-1]["impl_parsed"] else 0)],
-                   files_checked=nfiles, user_chosen_collisions=nuser, disagreements=ndis, **gen_common.stats(cases, results))
+                   files_checked=nfiles, user_chosen_collisions=nuser, download_dir_clashes=ndlclash, disagreements=ndis, **gen_common.stats(cases, results))
     rep.assumptions.append("no ninja binary in the sandbox: 'ninja can load it' is the predicate wf_manifest written from ninja's loading rules")
     rep.assumptions.append("paths are written unescaped; inputs with spaces/colons/$ in paths are outside the generator (known limitation)")
